@@ -38,6 +38,9 @@ def pairs():
         (dict(fail_span=(0, 6), suspect_span=(1, 5)), dict(fail_span=(1, 5), suspect_span=(2, 4))),
         (dict(fail_span=(0, 6), suspect_span=(1, 5)), dict(fail_span=(1, 5), suspect_span=(1, 5))),
         (dict(fail_span=(0, 6), suspect_span=(2, 4)), dict(fail_span=(2, 4), suspect_span=(3, 3))),
+        # a stricter fail span that no longer contains the suspect span: the function rejects it; if it did not, the flags must still not improve
+        (dict(fail_span=(0, 10), suspect_span=(2, 8)), dict(fail_span=(3, 9), suspect_span=(2, 8))),
+        (dict(fail_span=(0, 10), suspect_span=(2, 8)), dict(fail_span=(3, 7), suspect_span=(2, 8))),
         # a NaN bound leaves that side open (no comparison with NaN holds): closing it is a stricter span
         (dict(fail_span=(NAN, 6)), dict(fail_span=(0, 6))),
         (dict(fail_span=(0, NAN)), dict(fail_span=(0, 6))),
@@ -154,8 +157,8 @@ def compare_outcomes(ck, test, outs, what):
         equal_flags(ck, 'C16.monotone', f'{key}:pair', ca.label, oa, cb.label, ob, f'{test}: {what}', relation=relation)
         return
     if oa.kind == 'raise' or ob.kind == 'raise':
-        if oa.kind != ob.kind:
-            ck.violate('C16.monotone', f'{key}:raise-differs', f'{ca.label} vs stricter {cb.label}: one raises ({oa.exc or ob.exc}), the other does not')
+        # a parameter set the function rejects yields no flags: nothing can have become better (whether it must be rejected is C03 / C09 ...'s matter)
+        ck.hold('C16.monotone', f'{ca.label} => {cb.label} (rejected parameter set)')
         return
     va, vb = oa.value, ob.value
     if not isinstance(va, Vec) or not isinstance(vb, Vec) or len(va) != len(vb):
